@@ -1,10 +1,14 @@
 #!/bin/bash
-# runs every registered check at the given tier, one after the other; prints one line per check
+# runs every registered check (or the ids given after the tier) at the given tier, one after the other;
+# prints one line per check.  usage: run_all.sh [quick|thorough] [Cxx ...]
 TIER=${1:-quick}
+shift
+IDS="$*"
 cd "$(dirname "$0")" && HERE=$(pwd) && export VERIF_DIR=$HERE && ./run.sh build || exit 2
 export GOMAXPROCS=${GOMAXPROCS:-16} GOGC=${GOGC:-300} GOMEMLIMIT=${GOMEMLIMIT:-24GiB}
 rc=0
-for id in $(python3 -c "import json;print(' '.join(c['property_id'] for c in json.load(open('MANIFEST.json'))['checks']))"); do
+[ -n "$IDS" ] || IDS=$(python3 -c "import json;print(' '.join(c['property_id'] for c in json.load(open('MANIFEST.json'))['checks']))")
+for id in $IDS; do
   s=$(date +%s)
   out=$($HERE/.build/c4emc check $id --tier $TIER 2>/dev/null); e=$?
   echo "$id exit=$e $(( $(date +%s)-s ))s $(echo "$out" | grep -c '^KNOWN-FINDING') known $(echo "$out" | grep -c '^VIOLATION') violations"
